@@ -651,6 +651,95 @@ def chain_work(params):
     return p
 
 
+def rear_program(nbuilt):
+    L = ["house h", "  framer main be active first pool", "    frame pool"]
+    L += ["      aux worker as mine"] * nbuilt
+    L += ["      print pool",
+          "  framer worker be moot first w1", "    frame w1", "      print w",
+          "  framer helper be moot first h1", "    frame h1", "      print h"]
+    return "\n".join(L) + "\n"
+
+
+def rear_work(params):
+    """Run-time rearing on top of build-time insular clones, at the API level: what the Rearer / Razer actors do
+    (framer.newAuxTag, original.clone(surname_tag), framer.auxes[tag] = clone / clone.prune(), del framer.auxes[tag])."""
+    core.use_repo()
+    from ioflo.base import framing, excepting
+    from ioflo.base.globaling import AUX
+    p = core.Part()
+    for nbuilt, seq in params:
+        case = "build-time 'aux worker as mine' x%d then %s" % (nbuilt, " ".join(seq) or "(nothing)")
+        text = rear_program(nbuilt)
+        p.evaluations += 1
+        p.nontrivial(("rear", nbuilt, seq))
+        with core.watchdog(60):
+            ok, b = build_program(text)
+        if not ok:
+            p.violation("rear|build-refused", case, "the plan did not build", dict(program=text))
+            continue
+        house = b.houses[0]
+        reg = house.names["tasker"]
+        main = reg["main"]
+        pool = main.frameNames["pool"]
+        reared = []
+        bad = None
+        for step in seq:
+            if step.startswith("rear-"):
+                original = reg[step[5:]]
+                house.assignRegistries()
+                tag = main.newAuxTag(base=original.tag)
+                name = "_".join((main.surname, tag))
+                if tag in main.auxes:
+                    bad = ("rear|generated-tag-in-use", "newAuxTag(base=%r) returned %r, already a tag of framer main: %r" % (original.tag, tag, list(main.auxes.keys())))
+                    break
+                if name in reg:
+                    bad = ("rear|generated-name-in-use", "generated clone name %r is already registered in the house" % name)
+                    break
+                try:
+                    clone = original.clone(name=name, tag=tag, schedule=AUX)
+                except excepting.CloneError as ex:
+                    bad = ("rear|CloneError", "rearing %s raised CloneError: %s" % (step[5:], "".join(map(str, ex.args))))
+                    break
+                clone.original = False
+                clone.insular = True
+                clone.razeable = True
+                main.auxes[tag] = clone
+                pool.addAux(clone)
+                clone.main = pool
+                reared.append(clone)
+            else:                       # raze-first / raze-last of the reared (razeable) clones, as Razer does
+                if not reared:
+                    continue
+                aux = reared.pop(0 if step == "raze-first" else -1)
+                house.assignRegistries()
+                aux.prune()
+                pool.auxes.remove(aux)
+                if aux.tag in main.auxes:
+                    del main.auxes[aux.tag]
+            live = [main] + [a for a in pool.auxes if isinstance(a, framing.Framer)]
+            names = [f.name for f in live]
+            if len(set(names)) != len(names):
+                bad = ("rear|live-framers-share-name", "live framers %r" % sorted(names))
+                break
+            for f in live:
+                if reg.get(f.name) is not f:
+                    bad = ("rear|live-framer-not-registered", "framer %r is not the instance registered under its name" % f.name)
+                    break
+            if bad:
+                break
+            if sorted(main.auxes.keys()) != sorted(a.tag for a in pool.auxes):
+                bad = ("rear|auxes-tags-differ", "framer.auxes tags %r, clones in the frame %r" % (sorted(main.auxes.keys()), sorted(a.tag for a in pool.auxes)))
+                break
+        if bad:
+            p.outcome("rear:" + bad[0])
+            p.violation(bad[0], case, bad[1], dict(program=text, steps=list(seq), built_clones=nbuilt,
+                        how="build the program, then per step do what Rearer.action / Razer.action do on framer main, frame pool"))
+        else:
+            p.outcome("rear:ok built=%d" % nbuilt)
+            p.notes["reared_clones"] += sum(1 for x in seq if x.startswith("rear-"))
+    return p
+
+
 def program_work(params):
     core.use_repo()
     from ioflo.base import framing, tasking, logging
@@ -758,6 +847,11 @@ def run():
     chains = [(nroot, depth, style) for depth in ((1, 2, 3) if QUICK else (1, 2, 3, 4, 5))
               for nroot in ((2,) if QUICK else (2, 3)) for style in ("mine", "named")]
     pparts.append(chain_work(chains))
+    # run-time rearing after build-time insular clones: every sequence of rear/raze steps, shortest first
+    steps = ("rear-worker", "rear-helper", "raze-first", "raze-last")
+    rears = [(nb, seq) for n in range(1, (3 if QUICK else 5) + 1) for nb in ((0, 1, 2) if QUICK else (0, 1, 2, 3))
+             for seq in itertools.product(steps, repeat=n) if seq[0].startswith("rear-") and seq[-1].startswith("rear-")]
+    pparts += core.pmap(rear_work, [rears[i::8] for i in range(8)], procs=min(core.NPROC, 8)) if not QUICK else [rear_work(rears)]
     pv = []
     for p in pparts:
         pv.extend(p.violations)
@@ -765,9 +859,11 @@ def run():
     ck.merge(pparts)
     for v in sorted(pv, key=lambda v: (len(v[3].get("program", "")) if isinstance(v[3], dict) else 0, v[1])):
         ck.part.violation(*v)
-    ck.coverage_extra = dict(twin_family=dict(preload=hist_str(TWIN_PRELOAD), operations_after_preload=TWIN_DEPTH), clone_chain_programs=len(chains), focused_family=dict(preload=hist_str(FOCUS_PRELOAD), operations_after_preload=FOCUS_DEPTH, shards=len(ffirsts)), all_outcomes=dict(sorted(ck.part.outcomes.items())), first_operations=len(firsts), max_depth_after_first=MAX_DEPTH, programs=len(grid),
+    ck.coverage_extra = dict(rear_sequences=len(rears), twin_family=dict(preload=hist_str(TWIN_PRELOAD), operations_after_preload=TWIN_DEPTH), clone_chain_programs=len(chains), focused_family=dict(preload=hist_str(FOCUS_PRELOAD), operations_after_preload=FOCUS_DEPTH, shards=len(ffirsts)), all_outcomes=dict(sorted(ck.part.outcomes.items())), first_operations=len(firsts), max_depth_after_first=MAX_DEPTH, programs=len(grid),
                              explicit_names=EXPL, randint_draws_enumerated=RCAP, randint_answers=[0, 1])
     ck.assumptions = [
+        "run-time rearing is driven at the API level with the exact calls of Rearer.action / Razer.action (newAuxTag, clone, auxes bookkeeping, prune); "
+        "a generated tag must differ from every tag in framer.auxes and the generated name from every registered name; re-use of a razed clone's tag is allowed",
         "Framer.prune() ends the framer's life; it releases the name only in the tasker namespace that is current and only if that namespace holds this very instance "
         "(a same-named live framer of another house must stay registered)",
         "Clear() starts a fresh class-level namespace (it rebinds the class registry); a house's own registry is untouched and becomes current again on assignRegistries()",
@@ -785,8 +881,9 @@ def run():
              "assignRegistries of the same house, Framer.clone, explicit-duplicate and automatic creations}.  Third family: two houses each holding a live framer f; every history of %d operations over {assignRegistries of either house, prune() of either framer, "
              "explicit duplicate Framer/Tasker f in either house}.  Plus %d generated programs built through Builder, "
              "plus %d clone-chain plans (2-3 root framers each cloning the same chain of 1..%d moot framers, insular or equally tagged; the build must succeed and all "
-             "framer names of the house be distinct and registered to their own instance)."
-             % (len(firsts), MAX_DEPTH, MAX_HOUSES, MAX_FRAMERS, FOCUS_DEPTH, TWIN_DEPTH, len(grid), len(chains), max(c[1] for c in chains)),
+             "framer names of the house be distinct and registered to their own instance), plus %d rear/raze sequences on a framer that already owns 0-3 build-time insular "
+             "clones of the same moot (every generated tag / name must be fresh, no CloneError, live framers registered under distinct names)."
+             % (len(firsts), MAX_DEPTH, MAX_HOUSES, MAX_FRAMERS, FOCUS_DEPTH, TWIN_DEPTH, len(grid), len(chains), max(c[1] for c in chains), len(rears)),
         exhaustive=False,
         explanation="complete for histories of at most %d operations over the stated alphabet; not a fixpoint" % (MAX_DEPTH + 1))
 
